@@ -250,7 +250,8 @@ fn k17_4_ff_body<const OUT: usize, const NFF: usize>() {
             assert!(out[i] == 0xAAAA_AAAA);
         }
     }
-    kani::cover!(!null_ptr && !was_error && rc == (if NFF < OUT { NFF } else { OUT }) as i32);
+    let vc_7 = !null_ptr && !was_error && rc == (if NFF < OUT { NFF } else { OUT }) as i32;
+    kani::cover!(vc_7);
     kani::cover!(null_ptr && !was_error);
     std::mem::forget(m);
 }
